@@ -55,7 +55,9 @@ def _ttt_strategy(draw, tier):
             it = iter(free)
             s2 = [x if x is not None else next(it) for x in s2]
     X = draw(cm.dense_holder(s1, vk))
-    Y = draw(cm.dense_holder(s2, vk))
+    Y = draw(cm.dense_holder(s2, cm.other_vkind(draw, vk)))
+    if X.get("dtype") in cm.ST.SMALL_DTYPES and Y.get("dtype") in cm.ST.SMALL_DTYPES:
+        del Y["dtype"]  # two narrow-integer operands: their product wraps around by NumPy's own rules
     scalar_form = bool(sd is not None and len(sd) == 1 and draw(st.booleans()))
     return dict(X=X, Y=Y, selfdims=sd, otherdims=od, mode=mode, scalar_form=scalar_form)
 
@@ -87,7 +89,10 @@ def ttt_tensor(ctx, case):
     ctx.label("ttt-" + case["mode"], f"contract{len(sd)}", "scalar-dims" if case.get("scalar_form") else "array-dims",
               "expect-scalar" if expect.ndim == 0 else "expect-tensor",
               "dims-unsorted" if list(sd) != sorted(sd) or list(od) != sorted(od) else "dims-sorted",
-              "dims-differ" if list(sd) != list(od) else "dims-same")
+              "dims-differ" if list(sd) != list(od) else "dims-same", *cm.state_label(hx),
+              *["right:" + x for x in cm.state_label(hy)], *cm.object_labels(X, Y),
+              "dtypes-" + hx.get("dtype", "float64") + "/" + hy.get("dtype", "float64"),
+              "values-mixed-kinds" if hx["vkind"] != hy["vkind"] else "values-same-kind")
     ctx.nt = (len(set(hx["shape"]) | set(hy["shape"])) >= 2 and len(sd) >= 1 and
               (list(sd) != list(od) or list(sd) != sorted(sd)) and bool(np.any(expect != 0)))
     with ctx.sut("tensor.ttt"):
@@ -97,7 +102,7 @@ def ttt_tensor(ctx, case):
     if expect.ndim == 0:
         ctx.check(isinstance(R, cm.SCALAR_TYPES), "ttt-full-contraction-gives-scalar", type(R).__name__)
     nterms = ref.prod(hx["shape"][a] for a in sd) + 1
-    cm.compare(ctx, got, expect, bound, nterms, cm.intvalued(hx), "ttt-value",
+    cm.compare(ctx, got, expect, bound, nterms, cm.intvalued(hx, hy), "ttt-value",
                f"selfdims={case['selfdims']} otherdims={case['otherdims']}")
 
 
@@ -108,14 +113,18 @@ def _enum_ttt(tier):
     if tier == "thorough":
         pairs += [((2, 3, 4), (4, 3, 2)), ((2, 3, 2, 3), (3, 2)), ((1, 1), (1,)), ((2, 2, 2), (2, 2, 2))]
     for s1, s2 in pairs:
-        X = cm.fixed_holder("tensor", s1, salt=1)
-        Y = cm.fixed_holder("tensor", s2, salt=2)
+        X0 = cm.fixed_holder("tensor", s1, salt=1)
+        Y0 = cm.fixed_holder("tensor", s2, salt=2)
+        X, Y = X0, Y0
         if ref.prod(s1) * ref.prod(s2) <= 256:
             yield dict(X=X, Y=Y, selfdims=None, otherdims=None, mode="outer", scalar_form=False)
+        i = 0
         for k in range(1, min(len(s1), len(s2)) + 1):
             for sd in itertools.permutations(range(len(s1)), k):
                 for od in itertools.permutations(range(len(s2)), k):
                     if all(s1[a] == s2[b] for a, b in zip(sd, od)):
+                        i += 1
+                        X, Y = cm.fixed_state(X0, i), cm.fixed_state(Y0, i // 2 + 3)
                         mode = "full" if k == len(s1) == len(s2) else "pair"
                         yield dict(X=X, Y=Y, selfdims=list(sd), otherdims=list(od), mode=mode, scalar_form=False)
                         if k == 1:
@@ -151,10 +160,22 @@ def _inner_strategy(left):
         shape = draw(gen.shapes(tier, min_order=1, max_order=mo, max_size=ms, max_cells=mc))
         right = draw(st.sampled_from(INNER_RIGHT[left]))
         X = draw(cm.holder_with_shape(shape, vk, left))
-        Y = draw(cm.holder_with_shape(shape, vk, right))
+        Y = draw(cm.holder_with_shape(shape, cm.other_vkind(draw, vk), right))
+        if cm.has_small_dtype(X) and cm.has_small_dtype(Y):
+            _drop_small(Y)
         return dict(X=X, Y=Y)
 
     return s
+
+
+def _drop_small(h):
+    """no narrow-integer storage on the right when the left has it (their products wrap around by NumPy's rules)"""
+    if h["holder"] == "sumtensor":
+        for p in h["parts"]:
+            _drop_small(p)
+    for k in ("dtype", "cdtype"):
+        if h.get(k) in cm.ST.SMALL_DTYPES:
+            del h[k]
 
 
 def innerprod_body(ctx, case):
@@ -164,14 +185,16 @@ def innerprod_body(ctx, case):
     expect = np.array(float(np.sum(A * B)))
     bound = np.array(float(np.sum(cm.den_case(hx, True) * cm.den_case(hy, True))))
     ctx.label("right-" + hy["holder"], *cm.holder_labels(hx), *["right:" + x for x in cm.holder_labels(hy)[1:]],
-              "expect-zero" if float(expect) == 0 else "expect-nonzero")
+              "expect-zero" if float(expect) == 0 else "expect-nonzero", *cm.object_labels(X, Y),
+              *["right:" + x for x in cm.state_label(hy)],
+              "values-mixed-kinds" if hx["vkind"] != hy["vkind"] else "values-same-kind")
     ctx.nt = len(set(hx["shape"])) >= 2 and float(expect) != 0
     with ctx.sut(f"{hx['holder']}.innerprod({hy['holder']})"):
         r = X.innerprod(Y)
     ctx.require(isinstance(r, cm.SCALAR_TYPES) and not isinstance(r, bool), "innerprod-returns-scalar",
                 type(r).__name__)
     nterms = cm.terms(hx) * cm.terms(hy) * ref.prod(hx["shape"]) + 1
-    cm.compare(ctx, np.array(float(r)), expect, bound, nterms, cm.intvalued(hx), "innerprod-value")
+    cm.compare(ctx, np.array(float(r)), expect, bound, nterms, cm.intvalued(hx, hy), "innerprod-value")
 
 
 for _k, (_q, _t) in {"tensor": (1000, 10000), "sptensor": (1000, 10000), "ktensor": (800, 8000),
@@ -185,12 +208,15 @@ def _enum_inner(tier):
         shapes += [(1,), (1, 1), (2, 3, 2, 4)]
     kinds = ("tensor", "sptensor", "sptensor-thin", "sptensor-one", "sptensor-empty", "ktensor", "ttensor-dense",
              "ttensor-sparse", "sumtensor")
+    i = 0
     for sh in shapes:
         for lk in kinds:
             for rk in kinds:
                 if rk == "sumtensor":
                     continue
-                yield dict(X=cm.fixed_holder(lk, sh, salt=1), Y=cm.fixed_holder(rk, sh, salt=4))
+                i += 1
+                yield dict(X=cm.fixed_state(cm.fixed_holder(lk, sh, salt=1), i),
+                           Y=cm.fixed_state(cm.fixed_holder(rk, sh, salt=4), i // 3))
 
 
 @cell("C02/innerprod/enumerated", enum=_enum_inner, shards=(4, 8))
@@ -225,10 +251,17 @@ def _scale_strategy(kind):
             dims = draw(_dims_any(N))
         fshape = [shape[d] for d in sorted(dims)]  # factor modes follow the selected modes in ascending order
         pat = draw(st.sampled_from(["all", "all", "some", "one", "none"]))
-        fdata = gen._pattern_values(draw, ref.prod(fshape), pat, h["vkind"])
+        fvk = cm.other_vkind(draw, h["vkind"])
+        fdata, fdt = cm.operand_values(draw, ref.prod(fshape), pat, fvk, cm.has_small_dtype(h))
         forder = draw(st.sampled_from(["sorted", "reverse"]))
         dform = draw(st.sampled_from(["list", "array"] + (["int"] if len(dims) == 1 else [])))
-        return dict(X=h, dims=dims, dform=dform, fkind=fkind, fshape=fshape, fdata=fdata, forder=forder, fpattern=pat)
+        fstate = None
+        if fkind == "tensor":
+            fstate = draw(cm.ST.dense_state(fshape))
+        elif fkind == "sptensor":
+            fstate = draw(cm.ST.sparse_state(fshape, sum(1 for v in fdata if v != 0)))
+        return dict(X=h, dims=dims, dform=dform, fkind=fkind, fshape=fshape, fdata=fdata, forder=forder, fpattern=pat,
+                    fdtype=fdt, fvkind=fvk, fstate=fstate)
 
     return s
 
@@ -236,14 +269,15 @@ def _scale_strategy(kind):
 def _build_factor(case):
     F = gen.arr_F(case["fshape"], case["fdata"])
     fk = case["fkind"]
+    dt = np.dtype((case.get("fdtype") or "float64").split("@")[0])
     if fk == "ndarray":
-        return F.copy(), F
+        return cm.cast(F, case.get("fdtype")), F
     if fk == "tensor":
-        return ttb.tensor(F.copy(order="F"), tuple(case["fshape"])), F
+        return cm.ST.build_dense(F.astype(dt), case.get("fstate")), F
     sc = gen.sparse_case_from_dense(F)
     if case.get("forder") == "reverse":
         sc["subs"], sc["vals"] = sc["subs"][::-1], sc["vals"][::-1]
-    return gen.build_sptensor(sc), F
+    return cm.ST.build_sparse(sc["subs"], sc["vals"], case["fshape"], dt, case.get("fstate"), F), F
 
 
 def scale_body(ctx, case):
@@ -264,14 +298,18 @@ def scale_body(ctx, case):
     darg = int(dims[0]) if case["dform"] == "int" else (np.array(dims, dtype=int) if case["dform"] == "array" else
                                                         [int(d) for d in dims])
     ctx.label(*cm.holder_labels(h), "factor-" + case["fkind"], f"ndims{len(dims)}of{N}", "dims-" + case["dform"],
-              "dims-unsorted" if dims != sd else "dims-sorted", "factor-pattern-" + case["fpattern"])
+              "dims-unsorted" if dims != sd else "dims-sorted", "factor-pattern-" + case["fpattern"],
+              "factor-dtype-" + (case.get("fdtype") or "float64"), "factor-state-" + (case.get("fstate") or {}).get("how", "ctor"),
+              *cm.object_labels(X, factor),
+              "values-mixed-kinds" if case.get("fvkind", h["vkind"]) != h["vkind"] else "values-same-kind")
     ctx.nt = len(set(shape)) >= 2 and dims != list(range(len(dims))) and len(set(case["fdata"])) > 1 and bool(
         np.any(expect != 0))
     with ctx.sut(f"{kind}.scale({case['fkind']})"):
         R = X.scale(factor, darg)
     ctx.label(cm.result_kind(R))
     got = cm.result_array(ctx, R, "scale-result", allow=(kind,))
-    cm.compare(ctx, got, expect, bound, 2, cm.intvalued(h), "scale-value", f"dims={dims}")
+    cm.compare(ctx, got, expect, bound, 2, cm.intvalued(h) and case.get("fvkind", "int") == "int", "scale-value",
+               f"dims={dims}")
 
 
 cell("C02/scale/tensor", strategy=_scale_strategy("tensor"), quick=500, thorough=10000, shards=(2, 8))(scale_body)
@@ -287,7 +325,8 @@ def _enum_scale(tier):
     for sh in shapes:
         N = len(sh)
         for hk in ("tensor", "sptensor", "sptensor-thin", "sptensor-one", "sptensor-empty"):
-            h = cm.fixed_holder(hk, sh, salt=N + 5)
+            h0 = cm.fixed_holder(hk, sh, salt=N + 5)
+            i = 0
             for k in range(1, N + 1):
                 for dims in itertools.permutations(range(N), k):
                     fshape = [sh[d] for d in sorted(dims)]
@@ -295,7 +334,9 @@ def _enum_scale(tier):
                     for fkind in (("ndarray", "tensor") if hk == "tensor" else ("ndarray", "tensor", "sptensor")):
                         if fkind == "ndarray" and hk != "tensor" and k > 1:
                             continue
-                        yield dict(X=h, dims=list(dims), dform="int" if k == 1 and dims[0] % 2 else "list", fkind=fkind,
+                        i += 1
+                        h = cm.fixed_state(h0, i)
+                        yield dict(X=h, dims=list(dims), fdtype=(None, "int64", "int32")[i % 3], dform="int" if k == 1 and dims[0] % 2 else "list", fkind=fkind,
                                    fshape=fshape, fdata=fdata, forder="reverse", fpattern="some")
 
 
@@ -336,7 +377,14 @@ def _mask_strategy(kind):
                 entries = entries[::-1]
             elif order == "random" and len(entries) > 1:
                 entries = [entries[i] for i in draw(st.permutations(range(len(entries))))]
-        return dict(X=h, wkind=wkind, wshape=wshape, wsubs=entries, worder=order, wpattern=pat)
+        wdt = draw(st.sampled_from([None, None, "int64", "uint8", "bool"]))  # a mask is naturally integer / boolean
+        if wkind == "sptensor":
+            wstate = draw(cm.ST.sparse_state(wshape, len(entries)))
+            if wstate["how"].startswith("zeros"):
+                wstate = dict(how="ctor")  # a stored zero of W is not a one of W: what it selects is not defined
+        else:
+            wstate = draw(cm.ST.dense_state(wshape))
+        return dict(X=h, wkind=wkind, wshape=wshape, wsubs=entries, worder=order, wpattern=pat, wdtype=wdt, wstate=wstate)
 
     return s
 
@@ -347,13 +395,17 @@ def mask_body(ctx, case):
     X = cm.build(h)
     A, Aabs = cm.den_case(h), cm.den_case(h, absolute=True)
     wshape, wsubs = case["wshape"], case["wsubs"]
+    wdt = np.dtype(case.get("wdtype") or "float64")
+    Wd = np.zeros(tuple(wshape))
+    for s in wsubs:
+        Wd[tuple(s)] = 1.0
     if case["wkind"] == "tensor":
-        Wd = np.zeros(tuple(wshape))
-        for s in wsubs:
-            Wd[tuple(s)] = 1.0
-        W = ttb.tensor(Wd.copy(order="F"), tuple(wshape))
+        W = cm.ST.build_dense(Wd.astype(wdt), case.get("wstate"))
     else:
-        W = gen.build_sptensor(dict(shape=wshape, subs=wsubs, vals=[1.0] * len(wsubs)))
+        wst = case.get("wstate")
+        if wst and wst.get("how") not in ("ctor", "npshape"):
+            wst = dict(how="npshape") if wst.get("npshape") else None  # other histories re-order the stored ones of W
+        W = cm.ST.build_sparse(wsubs, [1.0] * len(wsubs), wshape, wdt, wst, Wd)
     # values of the data at the ones of W, in the order W enumerates them (F order for a dense W, stored order
     # for a sparse W)
     expect = np.array([A[tuple(s)] for s in wsubs], dtype=float)
@@ -361,7 +413,8 @@ def mask_body(ctx, case):
     nzhit = int(np.count_nonzero(expect))
     ctx.label(*cm.holder_labels(h), "W-" + case["wkind"], "W-stored-" + case["worder"], "W-pattern-" + case["wpattern"],
               "W-smaller" if list(wshape) != list(h["shape"]) else "W-same-shape",
-              "hits-none" if nzhit == 0 else ("hits-all" if nzhit == len(wsubs) else "hits-some"))
+              "hits-none" if nzhit == 0 else ("hits-all" if nzhit == len(wsubs) else "hits-some"),
+              "W-dtype-" + (case.get("wdtype") or "float64"), *cm.object_labels(X, W))
     ctx.nt = len(wsubs) >= 2 and 0 < nzhit and len(set(expect.tolist())) > 1
     with ctx.sut(f"{kind}.mask({case['wkind']})"):
         R = X.mask(W)
@@ -396,12 +449,16 @@ def _enum_mask(tier):
         small = [max(1, x - 1) for x in sh]
         wsets_small = [list(x) for x in ref.all_subs_F(small)]
         for hk in ("tensor", "sptensor", "sptensor-thin", "sptensor-one", "sptensor-empty", "ktensor"):
-            h = cm.fixed_holder(hk, sh, salt=len(sh) + 4)
+            h0 = cm.fixed_holder(hk, sh, salt=len(sh) + 4)
+            h = h0
             wkinds = MASK_W["sptensor" if hk.startswith("sptensor") else hk]
+            i = 0
             for wk in wkinds:
                 for name, ws in wsets.items():
                     for order in (("sorted", "reverse") if wk == "sptensor" and len(ws) > 1 else ("sorted",)):
-                        yield dict(X=h, wkind=wk, wshape=list(sh), wsubs=ws[::-1] if order == "reverse" else ws,
+                        i += 1
+                        h = cm.fixed_state(h0, i)
+                        yield dict(X=h, wdtype=(None, "int64", "bool")[i % 3], wkind=wk, wshape=list(sh), wsubs=ws[::-1] if order == "reverse" else ws,
                                    worder=order, wpattern=name)
                 yield dict(X=h, wkind=wk, wshape=small, wsubs=wsets_small, worder="sorted", wpattern="all")
 
